@@ -67,12 +67,25 @@ pub(crate) struct TokenResult {
     pub(crate) filenames: Vec<Filename>,
 }
 
+// maximum nesting depth of /include directives
+// A file that (directly or indirectly) includes itself exceeds every limit; it is reported as a failed include
+const MAX_INCLUDE_DEPTH: usize = 64;
+
 // tokenize()
 // Runs the actual tokenizer, then ensures that any /include directives are resolved
 pub(crate) fn tokenize(
     filename: &Filename,
     fileid: usize,
     filetext: &str,
+) -> Result<TokenResult, TokenizerError> {
+    tokenize_nested(filename, fileid, filetext, 0)
+}
+
+fn tokenize_nested(
+    filename: &Filename,
+    fileid: usize,
+    filetext: &str,
+    depth: usize,
 ) -> Result<TokenResult, TokenizerError> {
     let mut filenames: Vec<Filename> = vec![filename.clone()];
     let mut filedatas: Vec<String> = vec![filetext.to_owned()];
@@ -122,12 +135,20 @@ pub(crate) fn tokenize(
 
                 // check if incname is an accessible file
                 let incpathref = Path::new(&incfilename);
-                let loadresult = loader::load(incpathref);
+                let loadresult = if depth < MAX_INCLUDE_DEPTH {
+                    loader::load(incpathref)
+                } else {
+                    // include chain too deep: handled like an include file that can't be loaded
+                    Err(crate::A2lError::EmptyFileError {
+                        filename: incpathref.to_path_buf(),
+                    })
+                };
                 if let Ok(incfiledata) = loadresult {
-                    let mut tokresult = tokenize(
+                    let mut tokresult = tokenize_nested(
                         &Filename::new(incfilename, incname),
                         next_fileid,
                         &incfiledata,
+                        depth + 1,
                     )?;
 
                     next_fileid += tokresult.filenames.len();
